@@ -162,7 +162,7 @@ def r49(ctx: Ctx) -> RuleReport:
                   and norm(n.args[1]) == f"{s}.split(',')" for n in walk_local(fi.node)) or \
         any(isinstance(n, (ast.GeneratorExp, ast.ListComp)) and f"{s}.split(',')" in norm(n) and 'int(' in norm(n) for n in walk_local(fi.node))
     rep.add('penman.surface:AlignmentMarker.from_string: indices are the comma-separated integers of the rest', fi.loc(),
-            'ok' if rest_ok else 'violation')
+            'ok' if rest_ok else 'undecided')
     # writer side agrees: ~ prefix indices joined by commas
     w = ctx.repo.func('penman.surface', 'AlignmentMarker.__str__')
     src = norm(w.node)
@@ -215,7 +215,7 @@ def r50(ctx: Ctx) -> RuleReport:
             # reaching the store requires passing the validity test (on its false edge: `continue` on true)
             good = good and path is None
     rep.add('penman.layout:_preconfigure: a Push is honoured only if its variable is an end of the triple', pc.loc(),
-            'ok' if good else 'violation')
+            'ok' if good else 'undecided')
     return rep
 
 
@@ -238,7 +238,7 @@ def r51(ctx: Ctx) -> RuleReport:
         raise AnalysisError('_process_atomic: no search for the closing double quote')
     # strings are recognised by their opening quote
     okq = any(isinstance(n, ast.Call) and norm(n) == f"{p}.startswith('\"')" for n in walk_local(fi.node))
-    rep.add('penman.layout:_process_atomic: quoted atoms are recognised by their opening quote', fi.loc(), 'ok' if okq else 'violation')
+    rep.add('penman.layout:_process_atomic: quoted atoms are recognised by their opening quote', fi.loc(), 'ok' if okq else 'undecided')
     return rep
 
 
@@ -251,7 +251,7 @@ def r52(ctx: Ctx) -> RuleReport:
     apply_ = [n for n in walk_local(fi.node) if isinstance(n, ast.Assign) and norm(n.targets[0]) == 'self.node'
               and isinstance(n.value, ast.Call) and norm(n.value.func) == '_map_vars']
     if len(apply_) != 1:
-        rep.violation('penman.tree:Tree.reset_variables: the tree is rewritten by _map_vars', fi.loc(), f'{len(apply_)} such assignments')
+        rep.undecided('penman.tree:Tree.reset_variables: the tree is rewritten by _map_vars', fi.loc(), f'{len(apply_)} such assignments')
         return rep
     a = apply_[0]
     an = cfg.node_of(a)
@@ -261,7 +261,7 @@ def r52(ctx: Ctx) -> RuleReport:
     args = [norm(x) for x in a.value.args]
     vm = args[1] if len(args) > 1 else None
     rep.add('penman.tree:Tree.reset_variables: _map_vars receives the whole tree and the map', fi.loc(a),
-            'ok' if args[:1] == ['self.node'] and vm else 'violation', str(args))
+            'ok' if args[:1] == ['self.node'] and vm else 'undecided', str(args))
     loop = next((n for n in walk_local(fi.node) if isinstance(n, ast.For) and norm(n.iter) == 'self.nodes()'), None)
     good = False
     if loop is not None and isinstance(loop.target, ast.Tuple):
@@ -274,7 +274,7 @@ def r52(ctx: Ctx) -> RuleReport:
             if facts_cond is not None:
                 skip = cfg.path_avoiding([(facts_cond.id, 'T')], {head, cfg.exit}, lambda nd: nd.id == sn)
                 good = skip is None
-    rep.add('penman.tree:Tree.reset_variables: every node variable not yet mapped receives a new name', fi.loc(), 'ok' if good else 'violation')
+    rep.add('penman.tree:Tree.reset_variables: every node variable not yet mapped receives a new name', fi.loc(), 'ok' if good else 'undecided')
     return rep
 
 
@@ -311,7 +311,7 @@ def r53(ctx: Ctx) -> RuleReport:
     for n in walk_local(cf.node):
         if is_strip(n):
             alt = True
-    rep.add('penman.layout:configure: trailing POPs are dropped before improvisation starts', fi.loc(main), 'ok' if first is None or alt else 'violation')
+    rep.add('penman.layout:configure: trailing POPs are dropped before improvisation starts', fi.loc(main), 'ok' if first is None or alt else 'undecided')
     return rep
 
 
@@ -325,7 +325,7 @@ def r54(ctx: Ctx) -> RuleReport:
     resets = [n for n in walk_local(fi.node) if isinstance(n, ast.Assign) and norm(n.targets[0]) == 'self._top'
               and isinstance(n.value, ast.Constant) and n.value.value is None]
     if len(resets) != 1:
-        rep.violation('penman.graph:Graph.__isub__: the explicit top is reset when it disappears', fi.loc(), f'{len(resets)} resets of self._top')
+        rep.undecided('penman.graph:Graph.__isub__: the explicit top is reset when it disappears', fi.loc(), f'{len(resets)} resets of self._top')
         return rep
     r = resets[0]
     facts = facts_at(cfg, IN, pm, r)
@@ -334,7 +334,7 @@ def r54(ctx: Ctx) -> RuleReport:
         if pol and f.startswith('self._top not in '):
             setname = f[len('self._top not in '):]
     if setname is None:
-        rep.violation('penman.graph:Graph.__isub__: the reset is guarded by `self._top not in <remaining variables>`', fi.loc(r), str(sorted(facts)))
+        rep.undecided('penman.graph:Graph.__isub__: the reset is guarded by `self._top not in <remaining variables>`', fi.loc(r), str(sorted(facts)))
         return rep
     rep.ok('penman.graph:Graph.__isub__: the reset is guarded by `self._top not in <remaining variables>`', fi.loc(r))
     sv = single_def(ctx, fi, ast.Name(id=setname, ctx=ast.Load()))
@@ -369,7 +369,7 @@ def r54(ctx: Ctx) -> RuleReport:
                     slots |= {i for i, nm in enumerate(names) if nm in used}
     key = 'penman.graph:Graph.__isub__: the remaining variables are the sources and the targets of the remaining triples'
     good = over_triples and {0, 2} <= slots and 1 not in slots
-    rep.add(key, fi.loc(r), 'ok' if good else 'violation',
+    rep.add(key, fi.loc(r), 'ok' if good else ('violation' if over_triples and slots and not ({0, 2} <= slots) else 'undecided'),
             '' if good else f'the set is built from slot(s) {sorted(slots)} of the remaining triples: a top that survives only as a '
                             f'{"target" if 2 not in slots else "source"} is dropped although it still occurs')
     # the set is computed from the triples *after* removal
@@ -377,7 +377,7 @@ def r54(ctx: Ctx) -> RuleReport:
     rem = next((n for n in walk_local(fi.node) if isinstance(n, ast.Assign) and norm(n.targets[0]).startswith('self.triples')), None)
     if sdef is not None and rem is not None:
         order_ok = cfg.node_of(sdef) in cfg.reachable_from([cfg.node_of(rem)])
-        rep.add('penman.graph:Graph.__isub__: occurrence is judged on the triples that remain', fi.loc(sdef), 'ok' if order_ok else 'violation')
+        rep.add('penman.graph:Graph.__isub__: occurrence is judged on the triples that remain', fi.loc(sdef), 'ok' if order_ok else 'undecided')
     return rep
 
 
@@ -398,9 +398,9 @@ def r55(ctx: Ctx) -> RuleReport:
             loop_incs.append(n)
         elif 'top' in norm(n.target.slice):
             top_inc = n
-    rep.add('penman.graph:Graph.reentrancies: the top has one implicit entrancy', fi.loc(), 'ok' if top_inc is not None else 'violation')
+    rep.add('penman.graph:Graph.reentrancies: the top has one implicit entrancy', fi.loc(), 'ok' if top_inc is not None else 'undecided')
     if len(loop_incs) != 1:
-        rep.violation('penman.graph:Graph.reentrancies: one count per entrant edge', fi.loc(), f'{len(loop_incs)} increments in loops')
+        rep.undecided('penman.graph:Graph.reentrancies: one count per entrant edge', fi.loc(), f'{len(loop_incs)} increments in loops')
         return rep
     inc = loop_incs[0]
     loop = next(a for a in _anc(pm, inc) if isinstance(a, ast.For))
@@ -410,7 +410,7 @@ def r55(ctx: Ctx) -> RuleReport:
         rep.ok(key, fi.loc(loop), 'self.edges()')
         tv = loop.target.id if isinstance(loop.target, ast.Name) else None
         good = norm(inc.target.slice) in (f'{tv}.target', f'{tv}[2]')
-        rep.add('penman.graph:Graph.reentrancies: the target of the edge is counted', fi.loc(inc), 'ok' if good else 'violation', norm(inc))
+        rep.add('penman.graph:Graph.reentrancies: the target of the edge is counted', fi.loc(inc), 'ok' if good else 'undecided', norm(inc))
     elif it == 'self.triples':
         # a hand-written filter: it must be the edges predicate
         tv = loop.target
@@ -439,11 +439,11 @@ def r55(ctx: Ctx) -> RuleReport:
                 '' if d is None else f'triples are counted when {bn.show(got)}; edges are the triples with {bn.show(want)} '
                                      f'(differs for {d}): an instance triple whose concept is spelled like a variable is counted as an edge')
     else:
-        rep.violation(key, fi.loc(loop), f'iterates {it}')
+        rep.undecided(key, fi.loc(loop), f'iterates {it}')
     rets = [n for n in walk_local(fi.node) if isinstance(n, ast.Return) and n.value is not None]
     src = norm(rets[0].value) if rets else ''
     good = 'cnt - 1' in src.replace(' ', ' ') and '>= 2' in src or ('- 1' in src and ('>= 2' in src or '> 1' in src))
-    rep.add('penman.graph:Graph.reentrancies: reports count - 1 for nodes with at least two entrancies', fi.loc(), 'ok' if good else 'violation', src[:80])
+    rep.add('penman.graph:Graph.reentrancies: reports count - 1 for nodes with at least two entrancies', fi.loc(), 'ok' if good else 'undecided', src[:80])
     return rep
 
 
@@ -518,12 +518,12 @@ def r58(ctx: Ctx) -> RuleReport:
     vp = inner.positional[1]
     recs = [c for c, ts in ctx.cg.calls_in(inner) if any(t.kind == 'func' and t.func.fq == inner.fq for t in ts)]
     good = bool(recs) and all(len(c.args) >= 2 and norm(c.args[1]) == vp for c in recs) and not ctx.cg.local_assigns(inner).get(vp)
-    rep.add('penman.layout:_interpret_node: the same variable set is used at every depth', inner.loc(), 'ok' if good else 'violation')
+    rep.add('penman.layout:_interpret_node: the same variable set is used at every depth', inner.loc(), 'ok' if good else 'undecided')
     # Tree.nodes / _nodes cover the top and every nested node
     nf = ctx.repo.func('penman.tree', '_nodes')
     srcn = norm(nf.node)
     rep.add('penman.tree:_nodes: the node itself and, recursively, every non-atomic branch target', nf.loc(),
-            'ok' if '[node]' in srcn and '_nodes(target)' in srcn and 'not is_atomic(target)' in srcn else 'violation')
+            'ok' if '[node]' in srcn and '_nodes(target)' in srcn and 'not is_atomic(target)' in srcn else 'undecided')
     return rep
 
 
